@@ -460,6 +460,31 @@ def check_tokens(acc, pendulum, loc):
                         acc.mismatch("format-token", f"{loc}/{tok}/value", case, r, exp)
 
 
+def check_meridiem_hours(acc, pendulum, loc):
+    """The day-period token over the whole clock (both noon and midnight hours included), alone and inside the localized
+    time / date-time formats whose pattern carries it."""
+    d = data(loc)
+    am, pm = look(d, "translations.day_periods.am"), look(d, "translations.day_periods.pm")
+    fmts = look(d, "custom.date_formats") or {}
+    default = {"LTS": "h:mm:ss A", "LT": "h:mm A", "LLL": "MMMM D, YYYY h:mm A", "LLLL": "dddd, MMMM D, YYYY h:mm A"}
+    for hour in range(24):
+        for minute, second in ((0, 0), (30, 15), (59, 59)):
+            x = pendulum.datetime(2021, 5, 17, hour, minute, second)
+            want = pm if hour >= 12 else am
+            case = {"kind": "mer", "loc": loc, "h": hour, "mi": minute}
+            r = basic(acc, "format-token", f"{loc}/A/every-hour", case, lambda: x.format("A", locale=loc))
+            if r is not None and r != want:
+                acc.mismatch("format-token", f"{loc}/A/every-hour/value", case, r, want)
+            for tok in ("LT", "LTS", "LLL", "LLLL"):
+                pat = (fmts.get(tok) if isinstance(fmts, dict) else None) or default[tok]
+                if "A" not in pat.replace("MMMM", "").replace("MMM", ""):
+                    continue
+                r = basic(acc, "format-token", f"{loc}/{tok}/every-hour", dict(case, tok=tok), lambda: x.format(tok, locale=loc))
+                other = am if want == pm else pm
+                if r is not None and (want not in r or (other in r and other not in want)):
+                    acc.mismatch("format-token", f"{loc}/{tok}/every-hour/day-period", dict(case, tok=tok), r, f"contains {want!r}")
+
+
 CALLS = ("format_diff", "in_words", "format", "ordinalize", "from_format")
 
 
@@ -671,6 +696,7 @@ def run_shard(shard):
             check_date_time(acc, pendulum, loc)
             check_direction_data(acc, loc)
             check_tokens(acc, pendulum, loc)
+            check_meridiem_hours(acc, pendulum, loc)
             check_histories(acc, pendulum, loc)
             acc.c["nontrivial"] += 1
         acc.sample({"locale": shard["locales"][0], "in_words": "every subset of 8 components x sign", "tokens": list(TOKENS),
@@ -737,6 +763,8 @@ def replay_case(case, acc):
         check_date_time(acc, pendulum, case["loc"])
     elif k == "dir":
         check_direction_data(acc, case["loc"])
+    elif k == "mer":
+        check_meridiem_hours(acc, pendulum, case["loc"])
     elif k == "tok":
         check_tokens(acc, pendulum, case["loc"])
     elif k == "hist":
